@@ -493,7 +493,60 @@ func eachRecordType(emit func(xferCase)) {
 	}
 }
 
+// eachChainFault: the MAC chain of RFC 8945 5.3.1 broken at every envelope of every composition of every
+// short shape, in every way the position allows - the first envelope digested with the timers only or
+// without the request MAC; a later envelope digested with ALL the TSIG variables, chained to the request
+// MAC, or chained to the envelope before the previous one. The compositions include the opening SOA alone
+// in its envelope with more envelopes behind it (then envelope 1 is the first timers-only one).
+func eachChainFault(emit func(xferCase)) {
+	for _, sh := range shapes(5) {
+		compositions(len(sh.flat()), func(sizes []int) {
+			for j := range sizes {
+				vals := []int{2, 3}
+				if j >= 1 {
+					vals = []int{0, 1}
+				}
+				if j >= 2 {
+					vals = append(vals, 4)
+				}
+				for _, v := range vals {
+					c := sh
+					c.Sizes, c.Tsig, c.Sender, c.Trailer = sizes, enumKey, "harness", j%2 == 0
+					c.Fault = faultSpec{Kind: "chain", Env: j, Val: v}
+					emit(c)
+				}
+			}
+		})
+	}
+}
+
+// eachKeyRollOver: the key name of the transfer had another secret before and a transfer was made with
+// it (another dns.Transfer value). Afterwards: fault-free transfers from all three senders, and every
+// envelope in turn signed with the EARLIER secret (must be refused) - short shapes x three compositions.
+func eachKeyRollOver(emit func(xferCase)) {
+	old := []byte("the-secret-this-key-name-had-before")
+	for _, sh := range shapes(4) {
+		for _, sizes := range someSizes(len(sh.flat())) {
+			c := sh
+			c.Sizes, c.Tsig, c.RolledFrom, c.Sender, c.Trailer = sizes, enumKey, old, "harness", true
+			emit(c)
+			for j := range sizes {
+				f := c
+				f.Fault = faultSpec{Kind: "wrongkey", Env: j, Val: 2}
+				emit(f)
+			}
+			c.Trailer = false
+			c.Sender = "library"
+			emit(c)
+			c.Sender = "libout"
+			emit(c)
+		}
+	}
+}
+
 func init() {
+	pbt.RegisterEnum(pbt.Enum[xferCase]{Name: "mac-chain-every-envelope", Exhaustive: true, Each: eachChainFault, Check: checkXfer})
+	pbt.RegisterEnum(pbt.Enum[xferCase]{Name: "key-roll-over", Each: eachKeyRollOver, Check: checkXfer})
 	pbt.RegisterEnum(pbt.Enum[xferCase]{Name: "record-types", Each: eachRecordType, Check: checkXfer})
 	pbt.RegisterEnum(pbt.Enum[xferCase]{Name: "header-fault-every-envelope", Exhaustive: true, Each: eachHeaderFault, Check: checkXfer})
 
